@@ -28,6 +28,7 @@ class MCfg:
         self.attackers = 0.5
         self.extras = 0.1
         self.link_density = 1.0
+        self.join_ambiguity = 0.06      # names / ids whose joined forms coincide: ('web_prod','db') vs ('web','prod_db')
         self.xml_invalid_chars = True   # names may contain control characters an XML file cannot hold
         self.large = False        # the large stratum: 12-40 assets, fields with up to 12 members, long names, huge ids
         for k, v in kw.items():
@@ -86,7 +87,33 @@ def gen_amodel(rng, lang: Lang, cfg: MCfg | None = None) -> AModel:
         if rng.random() < cfg.extras:
             a['extras'] = rng.choice([{'position': {'x': 1, 'y': 2.5}}, {'note': 'n'}, {'k': [1, 2]}])
         m.assets.append(a)
+    amb = []
+    if lang.assocs and rng.random() < cfg.join_ambiguity:
+        i = rng.randrange(len(lang.assocs))
+        la = lang.assocs[i]
+        tl = [t for t in lang.descendants(la['leftAsset']) if t in conc]
+        tr = [t for t in lang.descendants(la['rightAsset']) if t in conc]
+        sep = rng.choice(['_', '_', ':', '-', ' ', '', '.', '/'])
+        p, q, r = rng.sample(['web', 'prod', 'db', 'a', 'b1', 'x'], 3)
+        quad = [(p + sep + q, tl), (r, tr), (p, tl), (q + sep + r, tr)]
+        if tl and tr and not any(nm in used_names for nm, _t in quad) and len({nm for nm, _t in quad}) == 4:
+            new_ids = []
+            for nm, types in quad:
+                aid = nid if not explicit else next(x for x in range(0, 200) if x not in used_ids)
+                nid = max(nid, aid + 1)
+                used_ids.add(aid)
+                used_names.add(nm)
+                m.assets.append({'id': aid, 'name': nm, 'type': rng.choice(types), 'defenses': {}, 'extras': {}})
+                new_ids.append(aid)
+            amb = [{'assoc': i, 'left': [new_ids[0]], 'right': [new_ids[1]], 'extras': {}},
+                   {'assoc': i, 'left': [new_ids[2]], 'right': [new_ids[3]], 'extras': {}}]
     _gen_links(rng, lang, m, cfg)
+    for l in amb:
+        # (unless the random links already contain the pair)
+        if not any(x['assoc'] == l['assoc'] and l['left'][0] in x['left'] and l['right'][0] in x['right'] for x in m.links) and \
+                not any(lang.assoc_class_name(x['assoc']) == lang.assoc_class_name(l['assoc']) and l['left'][0] in x['left'] and l['right'][0] in x['right'] for x in m.links):
+            m.links.append(l)
+    m.join_ambiguity = bool(amb)
     if m.assets and rng.random() < cfg.attackers:
         for j in range(rng.randint(1, 3) if not cfg.large else rng.randint(1, 12)):
             eps = []
